@@ -101,6 +101,25 @@ impl Scenario for C02 {
                 schedules.push(Schedule { workers, tape });
             }
         }
+        // Small spaces are enumerated, not sampled: with <= 3 workers every assignment of up to 4 work
+        // units to workers is one tape of length 4 (at most 81), so all of them are run.
+        let exhaustive_small = n_small <= 5 && rng.chance(1, if tier == Tier::Thorough { 3 } else { 8 });
+        if exhaustive_small {
+            let workers = rng.urange(2, 3);
+            schedules.clear();
+            let total = (workers as u32).pow(4);
+            for code in 0..total {
+                let mut c = code;
+                let tape: Vec<u16> = (0..4)
+                    .map(|_| {
+                        let w = (c % workers as u32) as u16;
+                        c /= workers as u32;
+                        w
+                    })
+                    .collect();
+                schedules.push(Schedule { workers, tape });
+            }
+        }
         let mut policy_cases = Vec::new();
         if rng.chance(1, 2) {
             for policy in 0..5u8 {
@@ -175,6 +194,9 @@ impl Scenario for C02 {
             }
             if n_units >= 2 && distinct_workers.len() == 1 {
                 ctx.hit("reach.one_worker_drained_all");
+            }
+            if self.schedules.len() >= 16 && n_units <= 4 && si + 1 == self.schedules.len() {
+                ctx.hit("reach.assignment_space_exhausted");
             }
             if s.workers > 8 {
                 ctx.hit("reach.workers_above_8");
